@@ -262,6 +262,149 @@ func runCRDTArm(c *core.Ctx) {
 	})
 	c.Check(armed, "crdt.Commit:arms-broadcast", commit.Pos(), "needBroadcastCount = len(peerIds) in Commit",
 		"the broadcast budget is never armed in Commit: broadcast ticks that fall between a write and its commit spend the budget on the old stable state, so the committed update may never reach a peer")
+	// ... for every section that wrote, whatever it wrote: the arming depends on one flag only, and that flag is the
+	// section's has-written flag as it stood when Commit began (a write that leaves Read() unchanged - an element added
+	// again - still changed timestamps / clocks that the peers must learn)
+	if armed {
+		info := commit.Pkg.Info
+		g := e.Graph(commit)
+		for i, arm := range g.FindAtoms(func(x ast.Node) bool { return isArm(info, x) }) {
+			key := fmt.Sprintf("crdt.Commit:arm#%d-exactly-when-the-section-wrote", i+1)
+			// the conditions on the way to the arming: each is the flag, or a single-definition copy of it taken by Commit
+			bad := ""
+			n := 0
+			for _, blk := range g.CFG.Blocks {
+				cd, _ := g.Cond(blk)
+				if cd == nil {
+					continue
+				}
+				at := g.AtomOf(cd)
+				if at == nil {
+					at = cd
+				}
+				onTrue, onFalse := g.GuardedBy(arm, at, true), g.GuardedBy(arm, at, false)
+				if !onTrue && !onFalse {
+					continue
+				}
+				n++
+				src := an.ResolveLocal(info, commit.Body(), cd)
+				if !(onTrue && an.SelectedField(info, src) == a.hasOld) {
+					bad = "the arming also depends on `" + an.ExprString(cd) + "`"
+					// a copy of the flag that is assigned again is not the flag
+					if id, isID := an.Unparen(cd).(*ast.Ident); isID && an.SingleDef(info, commit.Body(), info.ObjectOf(id)) == nil {
+						bad = "the arming depends on `" + id.Name + "`, which Commit changes after copying the has-written flag into it"
+					}
+				}
+			}
+			if n == 0 {
+				bad = "the arming does not depend on whether the section wrote"
+			}
+			c.Check(bad == "", key, arm.Pos(), "armed exactly when the section wrote (hasOldValue at entry)",
+				bad+": a committed write that is not announced never reaches the peers unless a later section happens to broadcast")
+		}
+	}
+	// an acknowledgement uses the budget up only if no section committed since the acknowledged state was read: the
+	// decrement in broadcast is on the true side of `res.<epoch> == <local>`, where the local was copied from the field
+	// before the stable state was read, and Commit advances the field where it arms the budget. Otherwise the
+	// acknowledgements of the OLD state consume the budget a commit has just re-armed, and the new state is never sent.
+	if bcFn := mustMethod(c, e, an.PkgResources, "crdt", "broadcast"); bcFn != nil && armed {
+		info := bcFn.Pkg.Info
+		var stablePos token.Pos
+		ast.Inspect(bcFn.Body(), func(m ast.Node) bool {
+			if call, ok := m.(*ast.CallExpr); ok && an.IsMethodNamed(an.CalleeFunc(info, call), an.PkgResources, "crdt", "getStableValue") && !stablePos.IsValid() {
+				stablePos = call.Pos()
+			}
+			return true
+		})
+		var stack []ast.Node
+		n := 0
+		ast.Inspect(bcFn.Body(), func(m ast.Node) bool {
+			if m == nil {
+				stack = stack[:len(stack)-1]
+				return true
+			}
+			stack = append(stack, m)
+			if _, isDec := fieldIsAssigned(info, m, a.count); !isDec || isArm(info, m) {
+				return true
+			}
+			n++
+			key := fmt.Sprintf("crdt.broadcast:ack#%d-counts-only-for-the-state-it-acknowledges", n)
+			ok := false
+			why := "the decrement is not conditional on an epoch comparison"
+			for k := len(stack) - 2; k >= 0 && !ok; k-- {
+				ifs, isIf := stack[k].(*ast.IfStmt)
+				if !isIf || k+1 >= len(stack) || stack[k+1] != ast.Node(ifs.Body) {
+					continue
+				}
+				be, isBin := an.Unparen(ifs.Cond).(*ast.BinaryExpr)
+				if !isBin || be.Op != token.EQL {
+					continue
+				}
+				for _, pair := range [][2]ast.Expr{{be.X, be.Y}, {be.Y, be.X}} {
+					f := an.SelectedField(info, pair[0])
+					l := an.ObjOf(info, pair[1])
+					if f == nil || l == nil || f == a.count {
+						continue
+					}
+					// the local is a copy of the field taken before the state was read, and never assigned otherwise
+					copies, others := 0, 0
+					ast.Inspect(bcFn.Body(), func(x ast.Node) bool {
+						as, isAs := x.(*ast.AssignStmt)
+						if !isAs {
+							return true
+						}
+						for i, lh := range as.Lhs {
+							if an.ObjOf(info, lh) != l {
+								continue
+							}
+							if len(as.Rhs) == len(as.Lhs) && an.SelectedField(info, as.Rhs[i]) == f && stablePos.IsValid() && as.Pos() < stablePos {
+								copies++
+							} else {
+								others++
+							}
+						}
+						return true
+					})
+					if copies != 1 || others != 0 {
+						why = "the local compared with the epoch is not a single copy of it taken before the stable state is read"
+						continue
+					}
+					// Commit advances the field in the block that arms the budget
+					advanced := false
+					ast.Inspect(commit.Body(), func(x ast.Node) bool {
+						blk, isBlk := x.(*ast.BlockStmt)
+						if !isBlk {
+							return true
+						}
+						hasArm, hasAdv := false, false
+						for _, st := range blk.List {
+							if isArm(commit.Pkg.Info, st) {
+								hasArm = true
+							}
+							if id, isInc := st.(*ast.IncDecStmt); isInc && id.Tok == token.INC && an.SelectedField(commit.Pkg.Info, id.X) == f {
+								hasAdv = true
+							}
+						}
+						if hasArm && hasAdv {
+							advanced = true
+						}
+						return true
+					})
+					if !advanced {
+						why = "Commit does not advance " + f.Name() + " where it arms the budget"
+						continue
+					}
+					ok = true
+				}
+			}
+			c.Check(ok, key, m.Pos(), "an acknowledgement counts only if no section committed since the acknowledged state was read",
+				why+": the acknowledgements of an older state use up the budget a commit has re-armed meanwhile, and that commit's state is never broadcast")
+			return true
+		})
+		if n == 0 {
+			c.Lost("crdt.broadcast:ack-counts", "no decrement of the broadcast budget found in broadcast")
+		}
+	}
 	// wherever else it is armed is informational
 	for _, fn := range e.Ix.MethodsOf(a.t) {
 		if fn == commit {
